@@ -505,7 +505,7 @@ def emit_extract(gen, ex, repo_root, unit):
         if mm:
             label = [x.strip() for x in mm.group(1).split(',')]
             for lb in label:
-                gen.labels.setdefault(lb, {'fn': ex.name, 'out_lines': [], 'unit': unit})
+                gen.labels.setdefault(lb, {'fn': ex.name, 'out_lines': [], 'unit': unit, '_pending': id(ex)})
             continue
         if label and gen.lines[li].strip():
             for lb in label:
@@ -513,9 +513,17 @@ def emit_extract(gen, ex, repo_root, unit):
             o = dict(o)
             o['labels'] = label
             gen.origin[li] = o
-    gen.functions[ex.name + ('#%d' % nth if nth != 1 else '')] = {
+    ty = ex.opts.get('ty')
+    fkey = ('%s::%s' % (ty, ex.name)) if ty else ex.name
+    if fkey in gen.functions:
+        raise ExtractError('duplicate function key %s (give ty=<Type> on the extract line)' % fkey)
+    for lb_info in gen.labels.values():
+        if lb_info.get('_pending') == id(ex):
+            lb_info['fn'] = fkey
+            del lb_info['_pending']
+    gen.functions[fkey] = {
         'file': ex.file, 'repo_lines': [first_line, last_line], 'props': props,
-        'out_lines': [out_first + 1, out_last + 1], 'name': ex.name}
+        'out_lines': [out_first + 1, out_last + 1], 'name': fkey}
     for b in ex.blocks:
         if b.kind != 'rewrite':
             gen.splices.append({'fn': ex.name, 'kind': b.kind, 'arg': b.arg, 'lines': len(b.lines)})
